@@ -276,6 +276,24 @@ impl Doc {
       }
     }
     blank(&mut v, &id.to_string());
+    // Which position the updated service takes among the services, and a bumped `updated` stamp in the IOTA metadata,
+    // are not "other parts" an update must leave alone.
+    fn settle(v: &mut serde_json::Value) {
+      match v {
+        serde_json::Value::Object(m) => {
+          if let Some(serde_json::Value::Array(services)) = m.get_mut("service") {
+            services.sort_by_key(|s| s.get("id").map(|i| i.to_string()).unwrap_or_default());
+          }
+          if let Some(serde_json::Value::Object(meta)) = m.get_mut("meta") {
+            meta.remove("updated");
+          }
+          m.values_mut().for_each(settle);
+        }
+        serde_json::Value::Array(a) => a.iter_mut().for_each(settle),
+        _ => {}
+      }
+    }
+    settle(&mut v);
     Ok(v)
   }
 }
@@ -443,6 +461,20 @@ fn decode_and_compare(
 /// `check_status` ⇔ membership, for every `StatusCheck`.
 fn validation_link(doc: &Doc, id: &DIDUrl, model: &BTreeSet<u32>, probes: &[u32], obs: &mut Obs) -> CheckResult {
   let issuer = fixture!(Url::parse(doc.did_string()), "issuer url");
+  // A second trusted issuer whose `#revocation` service holds exactly the probes that are NOT members: looking the
+  // status up in the wrong document flips every verdict.
+  let decoy_did = "did:example:decoy9999";
+  let mut decoy: CoreDocument = fixture!(
+    CoreDocument::from_json(&format!(r#"{{"id":"{decoy_did}"}}"#)),
+    "decoy document"
+  );
+  let complement: BTreeSet<u32> = probes.iter().copied().filter(|p| !model.contains(p)).collect();
+  let decoy_service_id = fixture!(DIDUrl::parse(format!("{decoy_did}#{FRAGMENT}")), "decoy service id");
+  fixture!(
+    decoy.insert_service(harness_service(&decoy_service_id, &current_endpoint_text(&complement))?),
+    "decoy service"
+  );
+  let issuer_core: CoreDocument = doc.core().clone();
   for index in probes {
     let status = match catch(|| RevocationBitmapStatus::new(id.clone(), *index)) {
       Ok(s) => s,
@@ -459,6 +491,21 @@ fn validation_link(doc: &Doc, id: &DIDUrl, model: &BTreeSet<u32>, probes: &[u32]
       "CredentialBuilder::build"
     );
     let member = model.contains(index);
+    // the issuer's document among several trusted ones, in either position
+    for (order, trusted) in [("decoy-first", [&decoy, &issuer_core]), ("issuer-first", [&issuer_core, &decoy])] {
+      let r = match catch(|| JwtCredentialValidatorUtils::check_status(&credential, &trusted, StatusCheck::Strict)) {
+        Ok(r) => r,
+        Err(p) => return obs.fail("check-status-panics", format!("check_status(index {index}, {order}) panicked: {}", p.msg)),
+      };
+      let revoked = matches!(r, Err(JwtValidationError::Revoked));
+      vensure!(
+        obs,
+        revoked == member,
+        if member { "check-status-misses-revoked-index" } else { "check-status-reports-unrevoked-index" },
+        "index {index} (member of the issuer's bitmap: {member}) with trusted issuers [{order}]: check_status = {r:?}"
+      );
+      obs.label("validation-among-several-issuers");
+    }
     for check in [StatusCheck::Strict, StatusCheck::SkipUnsupported, StatusCheck::SkipAll] {
       let r = match doc.check_status(&credential, check) {
         Ok(r) => r,
@@ -550,9 +597,6 @@ fn check_set(pieces: &[Piece], ops: &[(bool, u32)], probes: &[u32], kind: DocKin
     Ok(Err(e)) => return obs.fail("to-service-fails", format!("to_service for a set of {} elements: {e}", model.len())),
     Err(p) => return obs.fail("to-service-panics", format!("to_service panicked: {}", p.msg)),
   };
-  let Some(text) = endpoint_text(&service) else {
-    return obs.fail("to-service-wrong-shape", format!("endpoint is not a single octet-stream data URL: {:?}", service.service_endpoint()));
-  };
   vensure!(
     obs,
     service.id() == &id && service.type_().contains(RevocationBitmap::TYPE),
@@ -561,9 +605,13 @@ fn check_set(pieces: &[Piece], ops: &[(bool, u32)], probes: &[u32], kind: DocKin
     service.id(),
     service.type_()
   );
+  // The harness reads what the library wrote with its own codec (data URL, base64url, zlib, Roaring portable format).
+  // The statement promises the round trip, not this spelling: output the reference codec cannot read is only counted
+  // (the vacuity guard in `run` keeps the independent reading from silently disappearing).
+  let text = endpoint_text(&service).unwrap_or_default();
   obs.label(format!("endpoint-prefix-{}", prefix3(&text)));
   match read_current(&text) {
-    None => vfail!(obs, "encoded-endpoint-unreadable", "endpoint {}… is not base64url(zlib(roaring)) ", short(&text, 24)),
+    None => obs.label("own-endpoint-not-in-reference-form"),
     Some(read) => vensure!(
       obs,
       read == model,
@@ -661,13 +709,13 @@ fn check_history(kind: DocKind, initial: &[Piece], batches: &[Batch], probes: &[
       short(&after.to_string(), 400)
     );
     // what the document now stores, read independently of the library's decoder
-    let Some(text) = doc.endpoint_text(&id) else {
-      return obs.fail("document-endpoint-wrong-shape", format!("{name}: endpoint is no longer a single octet-stream data URL"));
-    };
+    let text = doc.endpoint_text(&id).unwrap_or_default();
     obs.label(format!("endpoint-prefix-{}", prefix3(&text)));
     match read_current(&text) {
-      None => vfail!(obs, "encoded-endpoint-unreadable", "{name}: endpoint {}… is not base64url(zlib(roaring))", short(&text, 24)),
+      // not the reference spelling: the set is judged through the library's own decoder below
+      None => obs.label("document-endpoint-not-in-reference-form"),
       Some(read) => {
+        obs.label("document-endpoint-read-by-reference");
         if read != model {
           let extra: Vec<&u32> = read.difference(&model).take(5).collect();
           let missing: Vec<&u32> = model.difference(&read).take(5).collect();
@@ -818,6 +866,7 @@ pub fn run(ctx: &mut Ctx) {
   ctx.require_class("sets:validation-revoked", 500);
   ctx.require_class("sets:validation-not-revoked", 500);
   ctx.require_class("histories:unrevoke-after-revoke", 100);
+  ctx.require_class("histories:document-endpoint-read-by-reference", 100);
   ctx.require_class("histories:core-document", 100);
   ctx.require_class("histories:iota-document", 100);
   ctx.require_class("histories:validation-revoked", 100);
